@@ -1,0 +1,33 @@
+//go:build verif
+
+package radius
+
+import (
+	"context"
+	"net"
+	"sync/atomic"
+)
+
+// Verification seams for property C09 (decoder hammer in /verif): exported
+// wrappers around unexported functions / fields, no behaviour of their own.
+
+// VerifC09ParseAttributes calls the real RADIUS attribute parser.
+func VerifC09ParseAttributes(data []byte) ([]Attribute, error) { return parseAttributes(data) }
+
+// VerifC09Addr returns the address the CoA listener is bound to (nil before Start).
+func (s *CoAServer) VerifC09Addr() net.Addr {
+	if s.conn == nil {
+		return nil
+	}
+	return s.conn.LocalAddr()
+}
+
+// VerifC09Bind installs the listening socket and marks the server running (what Start does
+// between ListenUDP and starting the receive loop).
+func (s *CoAServer) VerifC09Bind(conn *net.UDPConn) {
+	s.conn = conn
+	atomic.StoreInt32(&s.running, 1)
+}
+
+// VerifC09ReceiveLoop runs the real receiveLoop (the caller decides on which goroutine).
+func (s *CoAServer) VerifC09ReceiveLoop(ctx context.Context) { s.receiveLoop(ctx) }
